@@ -95,6 +95,10 @@ pub struct SrcLog {
     pub eof_reads: usize,
     /// (current, answer) of a growth policy answer that was not larger than the current size or absurdly large
     pub bad_policy: Option<(usize, usize)>,
+    /// buffer size at which the policy was asked to grow although the buffer already exceeded the whole input
+    pub runaway: Option<usize>,
+    /// buffer size with which the policy was asked 10 000 times in a row although every answer was larger
+    pub stalled: Option<usize>,
 }
 
 pub type SharedLog = Rc<RefCell<SrcLog>>;
